@@ -111,7 +111,10 @@ def main():
     for i in range(1, 20):
         pid = 'C%02d' % i
         m = META[pid]
-        if os.path.exists(os.path.join(VERIF, 'hl7lint', 'rules', pid.lower() + '.py')):
+        rp = os.path.join(VERIF, 'hl7lint', 'rules', pid.lower() + '.py')
+        if os.path.exists(rp):
+            import re
+            rules = sorted(set(re.findall(r"'(%s-[A-Z][0-9A-Za-z]*)[ '|]" % pid, open(rp).read())))
             checks.append({
                 'property_id': pid,
                 'quick_cmd': './check %s --tier quick' % pid,
@@ -120,7 +123,8 @@ def main():
                 'replay_cmd_template': './check %s --replay {path}' % pid,
                 'engine': 'hl7lint',
                 'level_claimed': {'category': 'other', 'text': m['text'], 'design_ref': m['ref']},
-                'level_note': m['note'],
+                'level_note': m['note'] + ' Rules evaluated on every run: %s (what each decides: evidence file; '
+                              'which seeded changes each catches: DESIGN.md section 10).' % ', '.join(rules),
                 'technique': m['technique'],
             })
         else:
